@@ -1839,8 +1839,13 @@ class Exists(QuantifiedConditional):
         self._eval_parent_ = parent
         seen_var_values = []
         for val in self.condition._evaluate__(sources, parent=self):
-            var_val = val[self.variable._id_]
-            if val.is_true and var_val.value not in seen_var_values:
+            if val.is_false:
+                continue
+            var_val = val.bindings.get(self.variable._id_)
+            if var_val is None:
+                # the condition held without binding the quantified variable (e.g. short-circuit)
+                yield OperationResult(val.bindings, False, self)
+            elif var_val.value not in seen_var_values:
                 seen_var_values.append(var_val.value)
                 yield OperationResult(val.bindings, False, self)
 
